@@ -74,6 +74,8 @@ func tIdx(n string) int {
 //	newmod                           — NewModule("m") on the shared scope (V = id of the module made)
 //	mget mtype                       — Get / Type of a pool name THROUGH the module that this thread's latest
 //	                                   get(m) / cget(m) returned (no env call, result "nomod", when it returned none)
+//	mset maddr mdelnear              — Set / Addr / DeleteGlobal of a pool name THROUGH the module held (as mget): operations that
+//	                                   start in the module (a scope BELOW the shared one) and walk up the chain
 //	path cpath                       — GetEnvFromPath on the shared scope / on its empty child; N = segments joined by "/"
 //	gdefine gdefinev                 — DefineGlobal / DefineGlobalValue called on the shared scope (c…: on its child):
 //	cgdefine cgdefinev                 they write the root of the chain, which is the parent
@@ -86,9 +88,9 @@ type Op struct {
 
 func (o Op) String() string {
 	switch o.K {
-	case "define", "set", "deftype", "cset", "newmod", "gdefine", "gdefinev", "cgdefine", "cgdefinev", "gdeftype", "gdeftypei", "cgdeftype":
+	case "define", "set", "deftype", "cset", "mset", "newmod", "gdefine", "gdefinev", "cgdefine", "cgdefinev", "gdeftype", "gdeftypei", "cgdeftype":
 		return fmt.Sprintf("%s(%s,%d)", o.K, o.N, o.V)
-	case "get", "delete", "delnear", "type", "cget", "caddr", "ctype", "mget", "mtype", "path", "cpath":
+	case "get", "delete", "delnear", "type", "cget", "caddr", "ctype", "mget", "mtype", "maddr", "mdelnear", "path", "cpath":
 		return fmt.Sprintf("%s(%s)", o.K, o.N)
 	}
 	return o.K + "()"
@@ -116,6 +118,9 @@ type Prog struct {
 	SelfMod bool `json:"selfmod,omitempty"`
 	// ForcedPublication: the generator planted newmod(m) in one thread and get(m); mget/mtype in another
 	ForcedPublication bool `json:"forced_publication,omitempty"`
+	// ForcedDescent: the generator planted a path that descends through the shared scope into the module m in one
+	// thread and an operation that starts in m and walks up the chain in another
+	ForcedDescent bool `json:"forced_descent,omitempty"`
 	// Wide: drawn from the wider operation mix (generator bookkeeping, shown as a class)
 	Wide bool `json:"wide,omitempty"`
 	// EmptyTab: when the shared scope starts with no value bound, its value table has been created and
@@ -208,8 +213,17 @@ var opKinds = []string{"define", "define", "set", "set", "get", "get", "delete",
 
 // newKinds are generator-side kinds added after the sixth round; each expands into one or two operations:
 // modget / modtype = get(m) or cget(m) followed by mget(n) / mtype(n); path = path or cpath with a drawn path;
-// gdef / gdeft = one of the define-global forms for values / types.
-var newKinds = []string{"newmod", "modget", "modtype", "path", "path", "gdef", "gdeft"}
+// gdef / gdeft = one of the define-global forms for values / types;
+// modwalk (added after the seventh round) = get(m) or cget(m) followed by mset(n) / maddr(n) / mdelnear(n).
+var newKinds = []string{"newmod", "modget", "modtype", "path", "path", "gdef", "gdeft", "modwalk"}
+
+// upWalkers: the operations done through a held module; every one of them starts in the module's own scope
+// and continues in the shared scope and the parent
+var upWalkers = []string{"mset", "mset", "mset", "maddr", "mdelnear", "mget", "mtype"}
+
+var upWalkerKinds = []string{"mset", "maddr", "mdelnear", "mget", "mtype"}
+
+const maxThreadOps = 8
 
 var (
 	vNamesWide = []string{"a", "b", "c", "a", "b", "c", modName}
@@ -290,6 +304,13 @@ func genProg(t *rapid.T, withString bool) Prog {
 				} else {
 					op = Op{K: "mtype", N: rapid.SampledFrom(tNames).Draw(t, "tname")}
 				}
+			case "modwalk":
+				ops = append(ops, Op{K: rapid.SampledFrom([]string{"get", "get", "cget"}).Draw(t, "holder"), N: modName})
+				op = Op{K: rapid.SampledFrom([]string{"mset", "mset", "maddr", "mdelnear"}).Draw(t, "walker"), N: rapid.SampledFrom(pool).Draw(t, "name")}
+				if op.K == "mset" {
+					op.V = next
+					next++
+				}
 			case "path":
 				op.K = rapid.SampledFrom([]string{"path", "cpath"}).Draw(t, "pathfrom")
 				segs := []string{rapid.SampledFrom(pathFirst).Draw(t, "seg0")}
@@ -343,6 +364,47 @@ func genProg(t *rapid.T, withString bool) Prog {
 		p.Threads[tj] = append(th, p.Threads[tj][k+1:]...)
 		p.ForcedPublication = true
 	}
+	// raise the density of the shape "one thread resolves a path that goes DOWN through the shared scope into the
+	// module m (sm/m...: two scopes one after the other, outer first) while another thread does an operation
+	// through m that walks UP (module first, then the shared scope, then the parent)": the two walk the same
+	// chain of scopes in opposite directions
+	if wide && rapid.IntRange(0, 3).Draw(t, "force_descent_against_ascent") == 0 {
+		p.SelfMod = true
+		ti := rapid.IntRange(0, nt-1).Draw(t, "desc_t0")
+		tj := (ti + 1 + rapid.IntRange(0, nt-2).Draw(t, "desc_t1")) % nt
+		segs := []string{selfName, modName}
+		if rapid.IntRange(0, 3).Draw(t, "desc_third") == 0 {
+			segs = append(segs, rapid.SampledFrom(pathLater).Draw(t, "desc_seg"))
+		}
+		p.Threads[ti][rapid.IntRange(0, len(p.Threads[ti])-1).Draw(t, "desc_pos")] = Op{K: rapid.SampledFrom([]string{"path", "cpath"}).Draw(t, "desc_from"), N: strings.Join(segs, "/")}
+		up := Op{K: rapid.SampledFrom(upWalkers).Draw(t, "desc_walker")}
+		if up.K == "mtype" {
+			up.N = rapid.SampledFrom(tNamesWide).Draw(t, "desc_tname")
+		} else {
+			up.N = rapid.SampledFrom(pool).Draw(t, "desc_name")
+		}
+		if up.K == "mset" {
+			up.V = next
+			next++
+		}
+		k := rapid.IntRange(0, len(p.Threads[tj])-1).Draw(t, "desc_pos1")
+		th := append([]Op{}, p.Threads[tj][:k]...)
+		th = append(th, Op{K: rapid.SampledFrom([]string{"get", "get", "cget"}).Draw(t, "desc_holder"), N: modName}, up)
+		th = append(th, p.Threads[tj][k+1:]...)
+		if len(th) > maxThreadOps {
+			// keep the planted pair, drop from the end (or, when the pair is at the end, from the front)
+			if k+2 <= maxThreadOps {
+				th = th[:maxThreadOps]
+			} else {
+				th = th[len(th)-maxThreadOps:]
+			}
+		}
+		p.Threads[tj] = th
+		if !canBindModule(p) {
+			p.Mod = true
+		}
+		p.ForcedDescent = true
+	}
 	excludeStringWithModule(&p)
 	keepParentQuiet(t, &p)
 	return p
@@ -364,7 +426,7 @@ func parentWriteConflicts(p Prog) []string {
 				gdef["v:"+op.N] = true
 			case "gdeftype", "gdeftypei", "cgdeftype":
 				gdef["t:"+op.N] = true
-			case "define", "delete", "delnear":
+			case "define", "delete", "delnear", "mdelnear":
 				pres["v:"+op.N] = true
 			case "deftype":
 				pres["t:"+op.N] = true
@@ -419,6 +481,9 @@ func keepParentQuiet(t *rapid.T, p *Prog) {
 						p.PresenceDemoted++
 					case "delete", "delnear":
 						th[i] = Op{K: "get", N: op.N}
+						p.PresenceDemoted++
+					case "mdelnear":
+						th[i] = Op{K: "mget", N: op.N}
 						p.PresenceDemoted++
 					}
 				}
@@ -502,12 +567,12 @@ func validProg(p Prog) error {
 		return fmt.Errorf("define-global of a name whose presence in the shared scope changes: %v", c)
 	}
 	for _, th := range p.Threads {
-		if len(th) > 8 {
+		if len(th) > maxThreadOps {
 			return fmt.Errorf("thread too long")
 		}
 		for _, op := range th {
 			switch op.K {
-			case "define", "set", "cset", "gdefine", "gdefinev", "cgdefine", "cgdefinev":
+			case "define", "set", "cset", "mset", "gdefine", "gdefinev", "cgdefine", "cgdefinev":
 				if nameIdx(op.N) < 0 || op.V < 10 || op.V >= len(typeTab) {
 					return fmt.Errorf("bad op %v", op)
 				}
@@ -523,7 +588,7 @@ func validProg(p Prog) error {
 				if vIdx(op.N) < 0 {
 					return fmt.Errorf("bad op %v", op)
 				}
-			case "caddr", "mget":
+			case "caddr", "mget", "maddr", "mdelnear":
 				if nameIdx(op.N) < 0 {
 					return fmt.Errorf("bad op %v", op)
 				}
@@ -686,6 +751,13 @@ func apply(s state, op Op, held bool) (state, string) {
 			return s, "nomod"
 		}
 		return apply(s, Op{K: "type", N: op.N}, false)
+	case "mset", "maddr", "mdelnear":
+		// Set / Addr / DeleteGlobal through the module: its own table is empty, so the nearest binding is the
+		// one that the same operation on the shared scope finds (as for cset / caddr through the empty child)
+		if !held {
+			return s, "nomod"
+		}
+		return apply(s, Op{K: map[string]string{"mset": "set", "maddr": "caddr", "mdelnear": "delnear"}[op.K], N: op.N, V: op.V}, false)
 	case "path", "cpath":
 		// Only paths with one reading are generated: the first segment is a name that is bound to a module or
 		// not at all ("sm": in the parent; "m": in the shared scope) or never to a module (a b c x); a later
@@ -1001,6 +1073,22 @@ func execOp(w world, ti int, op Op) string {
 			return "err"
 		}
 		return "t" + typeID(t)
+	case "mset":
+		if w.regs[ti] == nil {
+			return "nomod"
+		}
+		return errText(w.regs[ti].Set(op.N, op.V))
+	case "maddr":
+		if w.regs[ti] == nil {
+			return "nomod"
+		}
+		return addrText(w.regs[ti].Addr(op.N))
+	case "mdelnear":
+		if w.regs[ti] == nil {
+			return "nomod"
+		}
+		w.regs[ti].DeleteGlobal(op.N)
+		return "-"
 	case "path", "cpath":
 		from := w.shared
 		if op.K == "cpath" {
@@ -1050,14 +1138,7 @@ func execOp(w world, ti int, op Op) string {
 	case "cset":
 		return errText(w.child.Set(op.N, op.V))
 	case "caddr":
-		_, err := w.child.Addr(op.N)
-		switch {
-		case err == nil:
-			return "addressable"
-		case strings.Contains(err.Error(), "unaddressable"):
-			return "unaddressable"
-		}
-		return "undefined"
+		return addrText(w.child.Addr(op.N))
 	case "ctype":
 		t, err := w.child.Type(op.N)
 		if err != nil {
@@ -1116,6 +1197,16 @@ func execOp(w world, ti int, op Op) string {
 		return "str{" + got + "}"
 	}
 	panic("unknown op " + op.K)
+}
+
+func addrText(_ reflect.Value, err error) string {
+	switch {
+	case err == nil:
+		return "addressable"
+	case strings.Contains(err.Error(), "unaddressable"):
+		return "unaddressable"
+	}
+	return "undefined"
 }
 
 // finalText reads the final contents of both scopes (sequentially).
@@ -1229,9 +1320,9 @@ func touches(op Op) (reads, writes []string) {
 		return o
 	}
 	switch op.K {
-	case "define", "set", "delete", "delnear", "cset", "newmod", "gdefine", "gdefinev", "cgdefine", "cgdefinev":
+	case "define", "set", "delete", "delnear", "cset", "mset", "mdelnear", "newmod", "gdefine", "gdefinev", "cgdefine", "cgdefinev":
 		return nil, []string{"v:" + op.N}
-	case "get", "cget", "caddr", "mget":
+	case "get", "cget", "caddr", "mget", "maddr":
 		return []string{"v:" + op.N}, nil
 	case "path", "cpath":
 		return []string{"v:" + modName}, nil
@@ -1334,6 +1425,9 @@ func classifyProg(p Prog, class func(string, ...interface{})) {
 	if p.ForcedPublication {
 		class("module_publication_shape_planted")
 	}
+	if p.ForcedDescent {
+		class("path_down_against_walk_up_shape_planted")
+	}
 	if p.Mod {
 		class("shared_initially_binds_a_module")
 	}
@@ -1358,6 +1452,7 @@ func classifyProg(p Prog, class func(string, ...interface{})) {
 // shapeClasses counts the input shapes added after the sixth round.
 func shapeClasses(p Prog, class func(string, ...interface{})) {
 	newmodBy, holdBy := map[int]bool{}, map[int]bool{}
+	descentBy, ascentBy := map[int]bool{}, map[int]map[string]bool{}
 	gdefBy, parentValBy := map[int]bool{}, map[int]bool{}
 	builtinLookup, builtinGdef, pathSelfLater, writerOnShared := false, false, false, false
 	for ti, th := range p.Threads {
@@ -1368,6 +1463,18 @@ func shapeClasses(p Prog, class func(string, ...interface{})) {
 			case "mget", "mtype":
 				if oi > 0 && th[oi-1].N == modName {
 					holdBy[ti] = true
+				}
+				fallthrough
+			case "mset", "maddr", "mdelnear":
+				if op.K != "mget" && op.K != "mtype" {
+					class("has_op_through_module_that_may_write_or_take_an_address")
+				}
+				if ascentBy[ti] == nil {
+					ascentBy[ti] = map[string]bool{}
+				}
+				ascentBy[ti][op.K] = true
+				if op.K != "mtype" {
+					parentValBy[ti] = true
 				}
 			case "gdefine", "gdefinev", "cgdefine", "cgdefinev":
 				gdefBy[ti] = true
@@ -1386,6 +1493,9 @@ func shapeClasses(p Prog, class func(string, ...interface{})) {
 				class(fmt.Sprintf("path_segments_%d", len(segs)))
 				if segs[0] == selfName && len(segs) > 1 && p.SelfMod {
 					pathSelfLater = true
+					if segs[1] == modName && canBindModule(p) {
+						descentBy[ti] = true
+					}
 				}
 			}
 			switch op.K {
@@ -1393,7 +1503,7 @@ func shapeClasses(p Prog, class func(string, ...interface{})) {
 				if op.N == builtinI64 {
 					builtinLookup = true
 				}
-			case "define", "set", "delete", "delnear", "cset", "newmod":
+			case "define", "set", "delete", "delnear", "cset", "newmod", "mset", "mdelnear":
 				writerOnShared = true
 			}
 		}
@@ -1411,6 +1521,25 @@ func shapeClasses(p Prog, class func(string, ...interface{})) {
 			if a != b {
 				class("shape_define_global_from_below_while_another_thread_may_reach_the_root_table")
 				break
+			}
+		}
+	}
+	seenKinds := map[string]bool{}
+	for a := range descentBy {
+		for b, kinds := range ascentBy {
+			if a == b {
+				continue
+			}
+			for k := range kinds {
+				seenKinds[k] = true
+			}
+		}
+	}
+	if len(seenKinds) > 0 {
+		class("shape_path_descends_into_the_module_while_another_thread_walks_up_from_a_module")
+		for _, k := range upWalkerKinds {
+			if seenKinds[k] {
+				class("shape_path_descends_into_the_module_against_" + k)
 			}
 		}
 	}
